@@ -78,6 +78,7 @@ type Req struct {
 	Err          error                      // outcome
 	RevReq                                  // ControllerRevision requests carry typed bodies
 	Accepted     bool                       // the store was changed / the verb succeeded
+	List         bool                       // a LIST (Verb "get", empty Name)
 }
 
 func (r *Req) IsWrite() bool { return r.Verb != "get" }
@@ -450,6 +451,9 @@ func (c *rc) Patch(ctx context.Context, name string, pt types.PatchType, data []
 		if uerr := json.Unmarshal(data, &body); uerr == nil {
 			req.Body = &unstructured.Unstructured{Object: body}
 		}
+	case types.MergePatchType:
+		req.PatchType = "merge"
+		req.PatchData = string(data)
 	default:
 		req.PatchType = string(pt)
 	}
@@ -457,6 +461,52 @@ func (c *rc) Patch(ctx context.Context, name string, pt types.PatchType, data []
 		return nil, err
 	}
 	switch req.PatchType {
+	case "merge":
+		// RFC 7386 on the stored object. A resourceVersion in the patch is the
+		// optimistic lock, as in a full update. req.Body is the object the patch
+		// asks for (so that oracles can treat it like the body of an update).
+		if req.Pre == nil {
+			req.Err = apierrors.NewNotFound(c.gr(), name)
+			return nil, req.Err
+		}
+		patch := map[string]interface{}{}
+		if uerr := json.Unmarshal(data, &patch); uerr != nil {
+			req.Err = apierrors.NewBadRequest("undecodable merge patch")
+			return nil, req.Err
+		}
+		o := req.Pre.DeepCopy()
+		mergePatch(o.Object, patch)
+		req.Body = o.DeepCopy()
+		if md, ok := patch["metadata"].(map[string]interface{}); ok {
+			if rv, has := md["resourceVersion"]; has && rv != interface{}(req.Pre.GetResourceVersion()) {
+				req.Err = apierrors.NewConflict(c.gr(), name, nil)
+				return nil, req.Err
+			}
+		}
+		if controllerRefCount(o) > 1 {
+			req.Err = apierrors.NewInvalid(schema.GroupKind{Group: c.gvr.Group, Kind: o.GetKind()}, name, nil)
+			return nil, req.Err
+		}
+		// immutable / server-owned
+		o.SetUID(req.Pre.GetUID())
+		o.SetGeneration(req.Pre.GetGeneration())
+		if c.s.StatusSub[c.gvr.Resource] {
+			if st, had := req.Pre.Object["status"]; had {
+				o.Object["status"] = st
+			} else {
+				delete(o.Object, "status")
+			}
+		}
+		if !jsonEqual(o.Object["spec"], req.Pre.Object["spec"]) {
+			o.SetGeneration(req.Pre.GetGeneration() + 1)
+		}
+		o.SetResourceVersion(req.Pre.GetResourceVersion())
+		if !deepEqualJSON(o.Object, req.Pre.Object) {
+			o.SetResourceVersion(req.Pre.GetResourceVersion() + "+")
+		}
+		c.s.objs[c.s.find(c.gvr.Resource, c.ns, name)].obj = o
+		req.Accepted = true
+		return o.DeepCopy(), nil
 	case "json":
 		// the only JSON patch metacontroller sends removes its last-applied annotation
 		if req.Pre == nil {
@@ -548,6 +598,32 @@ func mergeOwnerRefs(dst, pre, body *unstructured.Unstructured) {
 	}
 	out = append(out, bodyRefs...)
 	unstructured.SetNestedSlice(dst.Object, out, "metadata", "ownerReferences")
+}
+
+// mergePatch applies a JSON merge patch (RFC 7386) to dst in place.
+func mergePatch(dst, patch map[string]interface{}) {
+	for k, v := range patch {
+		if v == nil {
+			delete(dst, k)
+			continue
+		}
+		if pm, ok := v.(map[string]interface{}); ok {
+			dm, isMap := dst[k].(map[string]interface{})
+			if !isMap {
+				dm = map[string]interface{}{}
+				dst[k] = dm
+			}
+			mergePatch(dm, pm)
+			continue
+		}
+		dst[k] = v
+	}
+}
+
+// IsObjectWrite: the request asks for a whole object state of an existing
+// object (an update, or a merge patch - Body is then the patched object).
+func (r *Req) IsObjectWrite() bool {
+	return r.Verb == "update" || (r.Verb == "patch" && r.PatchType == "merge")
 }
 
 // overlay writes src over dst recursively (maps merged, everything else replaced).
